@@ -65,6 +65,7 @@ type kase struct {
 	Creds       bool     `json:"credential_store"`
 	Noise       int64    `json:"noise_seed"`
 	KnownFamily string   `json:"known_family,omitempty"`
+	ExtCmds     bool     `json:"extension_command_set,omitempty"` // extension-priority cases: env, ext list, clean
 	Light       bool     `json:"light_command_set,omitempty"` // override cases: env, fetch, pull, push only
 	Missing     bool     `json:"missing_object,omitempty"`    // a third pointer whose object exists nowhere (makes skipdownloaderrors / allowincompletepush observable)
 }
@@ -642,8 +643,161 @@ func (g *generator) genOverrideCase(i, j int) kase {
 	return c
 }
 
+// ---------------------------------------------------------------- confusion cases
+//
+// One key per case from confusionTemplates (visited round-robin from a seeded start), sometimes next to an
+// allow-listed lfs.url (the repository also names the server). Nothing unsafe in the user's configuration.
+
+func (g *generator) genConfusionCase(i, j int) kase {
+	r := rand.New(rand.NewSource(g.seed*1000003 + int64(i)))
+	c := kase{Idx: i, Noise: r.Int63(), Kind: "confusion", Light: true}
+	c.Loc = []string{"worktree", "worktree", "index", "head", "bare"}[r.Intn(5)]
+	for c.Variant = pickVariant(r); c.Variant == "gitproto-origin"; { // that layout runs no network command
+		c.Variant = pickVariant(r)
+	}
+	c.OneShot = r.Intn(2) == 0
+	c.Creds = r.Intn(5) != 0
+	slot := c.Loc
+	if slot == "bare" {
+		slot = "head"
+	}
+	t := confusionTemplates[(int(g.seed%7+7)+j)%len(confusionTemplates)]
+	c.Entries = append(c.Entries, g.mkEntry(r, t, 0, slot))
+	if r.Intn(3) == 0 {
+		c.Entries = append(c.Entries, g.mkEntry(r, tmplByName(allowedTemplates, "lfs.url"), 1, slot))
+	}
+	if r.Intn(2) == 0 {
+		c.Entries[0], c.Entries[len(c.Entries)-1] = c.Entries[len(c.Entries)-1], c.Entries[0]
+	}
+	return c
+}
+
+// ---------------------------------------------------------------- extension-priority cases
+//
+// Precedence clause on derived state: the user's own Git configuration fully defines 1-3 filter extensions
+// (clean and smudge commands that exist, distinct priorities, 0 among them in two cases of three) and .lfsconfig
+// sets another priority for one of these names. git-lfs folds all sources into one Extension record per name,
+// so "the Git value wins" must hold for the record, not only for the raw key. Same differential oracle: the
+// reference twin's .lfsconfig lacks the key. In one case of six the user gives the target no priority at all:
+// that is the recorded documentation gap (priority is honoured from .lfsconfig) and keeps its trigger.
+
+var extNames = []string{"alpha", "beta", "gamma"}
+
+func extKey(name, key string) ckey {
+	return ckey{Sec: "lfs", HasSub: true, Sub: "extension." + name, Key: key}
+}
+
+func (g *generator) genExtPrioCase(i, j int) kase {
+	r := rand.New(rand.NewSource(g.seed*1000003 + int64(i)))
+	c := kase{Idx: i, Noise: r.Int63(), Kind: "extprio", ExtCmds: true}
+	c.Loc = []string{"worktree", "index", "head"}[(j+j/3+int(g.seed%3+3))%3]
+	c.Variant = "origin"
+	c.Creds = true
+	where := overrideWheres[(j/3+int(g.seed%5+5))%len(overrideWheres)]
+	incFrom := []string{"global", "local"}[r.Intn(2)]
+	n := 1 + r.Intn(3)
+	names := append([]string{}, extNames...)
+	r.Shuffle(len(names), func(a, b int) { names[a], names[b] = names[b], names[a] })
+	names = names[:n]
+	prios := r.Perm(4)[:n] // distinct, from 0..3
+	target := 0
+	gap := j%6 == 5
+	switch {
+	case gap: // the target gets no priority (= 0): keep 0 free
+		for k := range prios {
+			if prios[k] == 0 {
+				prios[k] = 4
+			}
+		}
+	case j%3 != 2: // the target's own priority is 0
+		for k := range prios {
+			if prios[k] == 0 {
+				prios[k] = prios[target]
+			}
+		}
+		prios[target] = 0
+	default: // ... is positive
+		if prios[target] == 0 {
+			prios[target] = 4
+		}
+	}
+	for k, nm := range names {
+		prog := "@ROOT@/bin/ext-" + nm
+		add := func(key, val, kind string) {
+			c.GitCfg = append(c.GitCfg, gentry{Scope: where, K: extKey(nm, key), Val: val, OKind: kind, IncFrom: incFrom})
+		}
+		add("clean", prog+" clean %f", "")
+		add("smudge", prog+" smudge %f", "")
+		if k == target && gap {
+			continue
+		}
+		kind := ""
+		if k == target {
+			kind = "prioN"
+			if prios[k] == 0 {
+				kind = "prio0"
+			}
+		}
+		add("priority", fmt.Sprint(prios[k]), kind)
+	}
+	// what .lfsconfig says for the target: a priority no extension of the user has
+	vals := []string{"5", "6", "9"}
+	zeroFree := true
+	for k := range prios {
+		if prios[k] == 0 && !(gap && k == target) {
+			zeroFree = false
+		}
+	}
+	if zeroFree && !gap {
+		vals = append(vals, "0")
+	}
+	t := tmplByName(unsafeTemplates, "lfs.extension.<n>.priority")
+	slot := c.Loc
+	e := g.mkEntry(r, t, 0, slot)
+	e.K = extKey(names[target], "priority")
+	e.Val = vals[r.Intn(len(vals))]
+	e.Sp.Dotted = false // extension names keep their case only in the quoted form
+	if gap {
+		c.KnownFamily = e.Known
+	} else {
+		e.Known = ""
+		e.Overridden = true
+	}
+	c.Entries = append(c.Entries, e)
+	if r.Intn(3) == 0 { // an allow-listed key the user does not set
+		c.Entries = append(c.Entries, g.mkEntry(r, tmplByName(allowedTemplates, "lfs.fetchexclude"), 1, slot))
+	}
+	return c
+}
+
 func (c kase) class() string {
 	switch c.Kind {
+	case "confusion":
+		for _, e := range c.Entries {
+			if e.Name != "lfs.url" {
+				return fmt.Sprintf("confusion/%s/%s.%s.%s", c.Loc, e.K.Sec, e.K.Sub, e.K.Key)
+			}
+		}
+	case "extprio":
+		user := "unset"
+		where := ""
+		n := 0
+		for _, g := range c.GitCfg {
+			where = g.Scope
+			if g.K.Key == "clean" {
+				n++
+			}
+		}
+		for _, e := range c.Entries {
+			if e.K.Key == "priority" {
+				for _, g := range c.GitCfg {
+					if g.K == e.K {
+						user = g.OKind
+					}
+				}
+				return fmt.Sprintf("extprio/%s/%s/user=%s/lfsconfig=%s/exts=%d", c.Loc, where, user, e.Val, n)
+			}
+		}
 	case "single":
 		for _, e := range c.Entries {
 			if !e.Allowed && !e.Decoy {
